@@ -32,9 +32,7 @@ TRUSTED = ["translators/gates_tables.py (fail-closed ast translator: gates.py ->
 ASSUMPTIONS = ["the coefficients a BQM reports define its energy, and BQM.energies / CQM.check_feasible evaluate them (property C01/C08)",
                "labels passed to a generator are pairwise distinct",
                "IEEE-754 arithmetic is exact on the small dyadic/integer coefficients generated"]
-PARTIAL = ["C17_multiplication_circuit_partial: arithmetic correctness (all gates satisfied => product bits = a*b) by computation for "
-           "2 <= n, m <= 6 only; energy 0 <=> all gates satisfied and the simulation lemma hold for all sizes; no induction over the adder array",
-           "quadratic_assignment: C17_qap_cost_symmetric needs a symmetric distance matrix; for an asymmetric one the generated objective is "
+PARTIAL = ["quadratic_assignment: C17_qap_cost_symmetric needs a symmetric distance matrix; for an asymmetric one the generated objective is "
            "not the documented cost (C17_qap_asymmetric_refuted, corpus/C17/qap_asymmetric.json); asymmetric matrices are kept out of the random stream (QAP_ASYMMETRIC in w_c17.py)",
            "magic_square: constraints tied coefficient-wise and on integer assignments; only necessity of the uniqueness constraint is a "
            "theorem (C17_magic_uniqueness_necessary); it is not sufficient (C17_magic_uniqueness_not_sufficient_refuted: a Latin square is feasible)",
